@@ -13,6 +13,23 @@ def run(ctx):
                    'translator T5 (tools/pyxsim.py: run() of python/package/multitensor.pyx, Cython-only syntax removed, executed under recording stand-ins for numpy / the containers / the library for all 16 combinations -> GenPyx.v) and T3 (multitensor.cpp -> GenCli.v, regular expressions); T5 is self-tested on every run by two built-in mutations that must break the theorems',
                    'NO runtime correspondence: the Cython extension is not built in this sandbox (no Cython); what is verified is the behaviour of the Python-level control flow of run() under stand-ins, not the compiled extension']
     ctx.prove()
+    # the command line's table (GenCli.v, T3) is the other side of "agrees with the command line's": when T3 fell back to the reference
+    # table, the real binary is run on all 8 variants and compared with the library variants the reference table names
+    if any(g == 'GenCli.v' for g, _ in getattr(ctx, 'advisory', [])):
+        import gen, cli
+        gen.INTEGRAL[0] = True
+        if ctx.build():
+            wd = vf.workdir()
+            metas, lines, cid = [], [], 700000
+            for variant in gen.VARIANTS:
+                for j in range(2):
+                    line, m = cli.make_case(ctx.rng.fork('w%d' % cid), cid, wd, variant=variant)
+                    lines.append(line)
+                    metas.append(m)
+                    cid += 1
+            res2 = ctx.component('K-CLI(the binary on all 8 variants vs the library variant of the reference table)', lines, model=False)
+            if res2:
+                ctx.extra['cli_identification'] = cli.run_and_compare(ctx, ctx.bdir, metas, res2['impl'])
     # translator self-test: the two built-in mutations of a scratch copy must make Properties_C19 fail
     detected = 0
     wd = vf.workdir()
